@@ -124,6 +124,11 @@ class CallMixin:
             raise Unsupported("contract call under a bound variable", node)
         bound = self.bind_args(con, args, kw, node)
         self.used_contracts.add(con.qualname)
+        if hasattr(con, "ghost_defs"):
+            for gname, (gval, gfacts) in con.ghost_defs(S.Ctx(dict(bound))).items():
+                bound[gname] = gval
+                for f in gfacts:
+                    self.fact(st, f)
         if con.modifies:
             return self.call_effect(con, bound, node, st, recv_node)
         pre = S.Ctx(bound)
@@ -378,7 +383,7 @@ class CallMixin:
         (x,) = [self.eval(a, st) for a in node.args]
         if x.ty != recv.ty:
             raise Unsupported("extend with %s" % x.ty, node)
-        return self._mutate(recv_node, self.list_concat(recv, x), st, node)
+        return self._mutate(recv_node, self.list_concat(recv, x, st), st, node)
 
     def apply_lambda(self, lam, args, st, node):
         """Evaluate a lambda expression's body on the given values (pure)."""
@@ -416,7 +421,7 @@ class CallMixin:
         self.fact(st, z3.ForAll([a], z3.Implies(z3.And(0 <= a, a < n), z3.And(0 <= pi(a), pi(a) < n, l_at(R, a) == l_at(lst.t, pi(a)), pinv(pi(a)) == a)),
                                 patterns=[l_at(R, a)]))
         self.fact(st, z3.ForAll([a], z3.Implies(z3.And(0 <= a, a < n), z3.And(0 <= pinv(a), pinv(a) < n, pi(pinv(a)) == a)),
-                                patterns=[pinv(a)]))
+                                patterns=[pinv(a), S.Tr(a)]))
         self.fact(st, z3.ForAll([a, b], z3.Implies(z3.And(0 <= a, a < b, b < n), z3.And(ka.t <= kb, z3.Implies(ka.t == kb, pi(a) < pi(b)))),
                                 patterns=[z3.MultiPattern(l_at(R, a), l_at(R, b))]))
         self.last_sort = dict(R=R, pi=pi, pinv=pinv)
@@ -533,7 +538,12 @@ class CallMixin:
             elem = under([], lambda: self.eval(node.elt, st2))
             sync()
             ty = TList(elem.ty)
-            return Val(ty, l_mk(ty, n, z3.Lambda([j], elem.t)))
+            R = z3.Const(fresh_name("mapped"), sort_of(ty))
+            self.fact(st, l_len(R) == n)
+            a = z3.Int(fresh_name("a"))
+            body = z3.Implies(z3.And(0 <= a, a < n), l_at(R, a) == z3.substitute(elem.t, (j, a)))
+            self.fact(st, z3.ForAll([a], body, patterns=[l_at(R, a), l_at(src.t, a)]))
+            return Val(ty, R)
         # filter: witness functions (order preserving, sound, complete)
         conds = under([], lambda: [self.truthy(self.eval(c, st2), node) for c in g.ifs])
         cond = z3.And(*conds) if len(conds) > 1 else conds[0]
